@@ -6,7 +6,7 @@ use crate::ops::*;
 use crate::rng::Rng;
 use crate::world::*;
 
-pub const NF: usize = 25;
+pub const NF: usize = 26;
 
 #[derive(Clone, Debug)]
 pub struct FaultCfg {
@@ -64,6 +64,7 @@ impl FaultCfg {
             Fault::Noise,
         ];
         let formp = [
+            Fault::ChecksumRendering,
             Fault::BadChecksum,
             Fault::FormPreservingByte,
             Fault::FormPreservingDigit,
@@ -573,8 +574,9 @@ impl<'a> Link<'a> {
                                         Some(((v as u32 + 1 + rng.below(3) as u32) % 10) as u8)
                                     }
                                 }
-                                None => Some(rng.below(10) as u8),
+                                None => Some(*rng.pick(&[0u8, 1, 5, 9, 255, 255])),
                             };
+                            let nid = if id == Some(255) && rng.ratio(1, 2) { None } else { nid };
                             repl.push((3, nid.map(|v| v.to_string().into_bytes()).unwrap_or_default()));
                         }
                         1 => {
@@ -626,6 +628,60 @@ impl<'a> Link<'a> {
                     let digits = *rng.pick(&[2usize, 2, 2, 1, 3, 8]);
                     op.bytes = with_checksum(&op.bytes, &lx, nv, digits, rng.ratio(1, 2));
                     op.faults.push(Fault::BadChecksum);
+                }
+            }
+        }
+        if self.fires(rng, Fault::ChecksumRendering) {
+            // the checksum field written in an unusual way: extra high digits in front of the
+            // right (or a wrong) low byte, nine or more digits, extra digits behind, mixed case
+            if let Some(lx) = lex(&op.bytes) {
+                if lx.value.is_some() {
+                    let x = xor(lx.body(&op.bytes)) as u32;
+                    let low = if rng.ratio(3, 4) { x } else { rng.below(256) as u32 };
+                    let mut digits: Vec<u8> = Vec::new();
+                    match rng.below(5) {
+                        0 => {
+                            // non-zero digits above the low byte, 3..=8 digits in all
+                            let extra = rng.range(1, 6);
+                            for i in 0..extra {
+                                digits.push(*rng.pick(if i == 0 { b"123456789ABCDEFabcdef".as_slice() } else { b"0123456789ABCDEF".as_slice() }));
+                            }
+                            digits.extend_from_slice(&render_checksum(low, 2, rng.ratio(1, 2)));
+                        }
+                        1 => {
+                            // nine or more digits: only the first eight are read
+                            let extra = rng.range(7, 12);
+                            for i in 0..extra {
+                                let lead = i == 0 && rng.ratio(1, 2);
+                                digits.push(*rng.pick(if lead { b"1248Ff".as_slice() } else { b"0000000123456789ABCDEF".as_slice() }));
+                            }
+                            digits.extend_from_slice(&render_checksum(low, 2, rng.ratio(1, 2)));
+                        }
+                        2 => {
+                            // right value followed by more hex digits
+                            digits.extend_from_slice(&render_checksum(low, 2, true));
+                            for _ in 0..rng.range(1, 8) {
+                                digits.push(*rng.pick(b"0123456789ABCDEFabcdef"));
+                            }
+                        }
+                        3 => {
+                            // mixed case
+                            let r = render_checksum(low, 2, true);
+                            digits.push(r[0].to_ascii_lowercase());
+                            digits.push(r[1]);
+                        }
+                        _ => {
+                            let r = render_checksum(low, 2, false);
+                            digits.push(r[0].to_ascii_uppercase());
+                            digits.push(r[1]);
+                        }
+                    }
+                    let mut out = op.bytes[..=lx.star].to_vec();
+                    out.extend_from_slice(&digits);
+                    out.extend_from_slice(&op.bytes[lx.star + 1 + lx.digits..]);
+                    op.bytes = out;
+                    op.form_ok = false;
+                    op.faults.push(Fault::ChecksumRendering);
                 }
             }
         }
